@@ -37,6 +37,14 @@ var formulaFns = []string{
 	"(*Point).bytesMontgomery",
 	"isOnCurve", "(*Point).SetExtendedCoordinates", "(*Point).SetBytes",
 	"(*field.Element).Invert", "(*field.Element).Pow22523",
+	"(*Point).bytes", "(*Point).Bytes", "(*Point).BytesMontgomery", "(*Point).Set", "NewIdentityPoint", "NewGeneratorPoint",
+	"(*Point).extendedCoordinates",
+	"(*projLookupTable).FromP3", "(*affineLookupTable).FromP3", "(*nafLookupTable5).FromP3", // (*nafLookupTable8).FromP3: 64 unrolled entries, the rfl tie needs minutes
+}
+
+// unexported helpers that fill a caller-provided buffer: parameter positions that may be written besides the receiver
+var formulaOutParams = map[string]map[int]bool{
+	"(*Point).bytes": {1: true}, "(*Point).bytesMontgomery": {1: true}, "(*Point).extendedCoordinates": {1: true},
 }
 
 // Go struct -> Lean structure of EdVerif.Impl
@@ -70,7 +78,6 @@ var formulaPrims = map[string]prim{
 	"(*field.Element).Bytes":    {"Fe.bytes", []int{0}, -1, "val"},
 	"(*field.Element).IsNegative": {"Fe.isNegative", []int{0}, -1, "val"},
 	"crypto/subtle.ConstantTimeCompare": {"Fe.ctCompare", []int{0, 1}, -1, "val"},
-	"copyFieldElement":          {"Point.copyFieldElement", []int{1}, 0, "val"},
 }
 
 type fplace struct {
@@ -162,41 +169,76 @@ func isElement(ty types.Type) bool {
 	return ok && n.Obj().Name() == "Element" && n.Obj().Pkg() != nil && strings.HasSuffix(n.Obj().Pkg().Path(), "/field")
 }
 
-// leaf paths (relative) of a type: Element is a leaf; structs of the table decompose; pointers / ints are leaves
-func (t *ftr) leaves(ty types.Type) []struct {
-	path string
+type fkid struct {
+	seg  string // path segment in place keys
+	proj string // Lean projection applied to a term of the parent type
 	ty   types.Type
-} {
-	type lf = struct {
-		path string
-		ty   types.Type
+}
+
+func isByteSeq(ty types.Type) bool {
+	switch u := ty.Underlying().(type) {
+	case *types.Array:
+		b, ok := u.Elem().Underlying().(*types.Basic)
+		return ok && b.Kind() == types.Uint8
+	case *types.Slice:
+		b, ok := u.Elem().Underlying().(*types.Basic)
+		return ok && b.Kind() == types.Uint8
 	}
-	if isElement(ty) {
-		return []lf{{"", ty}}
+	return false
+}
+
+func realFields(st *types.Struct) []*types.Var {
+	var out []*types.Var
+	for i := 0; i < st.NumFields(); i++ {
+		fl := st.Field(i)
+		if a, ok := fl.Type().Underlying().(*types.Array); ok && a.Len() == 0 {
+			continue // `_ incomparable`
+		}
+		out = append(out, fl)
+	}
+	return out
+}
+
+// components of a composite type (nil for leaves: Element, byte sequences, integers, pointers)
+func (t *ftr) kids(ty types.Type) []fkid {
+	if isElement(ty) || isByteSeq(ty) {
+		return nil
 	}
 	switch u := ty.Underlying().(type) {
 	case *types.Struct:
-		var out []lf
-		for i := 0; i < u.NumFields(); i++ {
-			fl := u.Field(i)
-			if a, ok := fl.Type().Underlying().(*types.Array); ok && a.Len() == 0 {
-				continue // `_ incomparable`
+		fs := realFields(u)
+		if _, ok := leanStruct[namedName(ty)]; ok {
+			var out []fkid
+			for _, fl := range fs {
+				out = append(out, fkid{"." + fl.Name(), "." + fl.Name(), fl.Type()})
 			}
-			for _, l := range t.leaves(fl.Type()) {
-				out = append(out, lf{"." + fl.Name() + l.path, l.ty})
-			}
+			return out
 		}
-		return out
+		if len(fs) == 1 {
+			// a struct with a single field is modelled by that field (`struct{ points [8]projCached }`)
+			return []fkid{{"." + fs[0].Name(), "", fs[0].Type()}}
+		}
+		t.fail("no Lean structure for %s", ty)
 	case *types.Array:
-		var out []lf
+		var out []fkid
 		for i := int64(0); i < u.Len(); i++ {
-			for _, l := range t.leaves(u.Elem()) {
-				out = append(out, lf{fmt.Sprintf("[%d]", i) + l.path, l.ty})
-			}
+			out = append(out, fkid{fmt.Sprintf("[%d]", i), fmt.Sprintf("[%d]!", i), u.Elem()})
 		}
 		return out
 	}
-	return []lf{{"", ty}}
+	return nil
+}
+
+// every leaf place under p, with the Lean term that projects it out of `term : leanTypeOf(p.ty)`
+func (t *ftr) leafTerms(p fplace, term string, f func(key, term string, ty types.Type)) {
+	ks := t.kids(p.ty)
+	if ks == nil {
+		f(p.key, term, p.ty)
+		return
+	}
+	for _, k := range ks {
+		t.leafTerms(fplace{p.key + k.seg, k.ty}, term+k.proj, f)
+	}
 }
 
 func (t *ftr) leanTypeOf(ty types.Type) string {
@@ -222,6 +264,14 @@ func (t *ftr) leanTypeOf(ty types.Type) string {
 			return "Bytes"
 		}
 	}
+	if a, ok := ty.Underlying().(*types.Array); ok {
+		return "(Array " + t.leanTypeOf(a.Elem()) + ")"
+	}
+	if st, ok := ty.Underlying().(*types.Struct); ok {
+		if fs := realFields(st); len(fs) == 1 {
+			return t.leanTypeOf(fs[0].Type())
+		}
+	}
 	t.fail("no Lean type for %s", ty)
 	return "Unit"
 }
@@ -243,17 +293,19 @@ func (t *ftr) zeroTerm(ty types.Type) string {
 
 // the value stored at a place, packed as a Lean term of the place's type
 func (t *ftr) pack(p fplace) string {
-	if _, ok := leanStruct[namedName(p.ty)]; ok {
+	ks := t.kids(p.ty)
+	if ks != nil {
 		var fs []string
-		st := p.ty.Underlying().(*types.Struct)
-		for i := 0; i < st.NumFields(); i++ {
-			fl := st.Field(i)
-			if a, ok := fl.Type().Underlying().(*types.Array); ok && a.Len() == 0 {
-				continue
-			}
-			fs = append(fs, t.pack(fplace{p.key + "." + fl.Name(), fl.Type()}))
+		for _, k := range ks {
+			fs = append(fs, t.pack(fplace{p.key + k.seg, k.ty}))
 		}
-		return "(⟨" + strings.Join(fs, ", ") + "⟩ : " + leanStruct[namedName(p.ty)] + ")"
+		if ls, ok := leanStruct[namedName(p.ty)]; ok {
+			return "(⟨" + strings.Join(fs, ", ") + "⟩ : " + ls + ")"
+		}
+		if _, ok := p.ty.Underlying().(*types.Array); ok {
+			return "#[" + strings.Join(fs, ", ") + "]"
+		}
+		return fs[0]
 	}
 	v, ok := t.store[p.key]
 	if !ok {
@@ -269,21 +321,12 @@ func (t *ftr) pack(p fplace) string {
 
 // write a Lean term of the place's type into the place (unpacking structures)
 func (t *ftr) unpack(p fplace, term string) {
-	if _, ok := leanStruct[namedName(p.ty)]; ok {
-		st := p.ty.Underlying().(*types.Struct)
-		for i := 0; i < st.NumFields(); i++ {
-			fl := st.Field(i)
-			if a, ok := fl.Type().Underlying().(*types.Array); ok && a.Len() == 0 {
-				continue
-			}
-			t.unpack(fplace{p.key + "." + fl.Name(), fl.Type()}, term+"."+fl.Name())
-		}
-		return
-	}
 	if strings.HasPrefix(p.key, "g:") {
 		t.fail("store to package-level variable %s", p.key)
 	}
-	t.store[p.key] = fval{kind: "term", term: term, ty: p.ty}
+	t.leafTerms(p, term, func(key, tm string, ty types.Type) {
+		t.store[key] = fval{kind: "term", term: tm, ty: ty}
+	})
 }
 
 func (t *ftr) let(term string) string {
@@ -294,19 +337,17 @@ func (t *ftr) let(term string) string {
 }
 
 func (t *ftr) initPlace(p fplace, term string, zero bool) {
-	for _, l := range t.leaves(p.ty) {
-		k := p.key + l.path
+	t.leafTerms(p, term, func(key, tm string, ty types.Type) {
 		if zero {
-			if _, isPtr := l.ty.Underlying().(*types.Pointer); isPtr {
-				t.store[k] = fval{kind: "term", term: "nil", ty: l.ty}
+			if _, isPtr := ty.Underlying().(*types.Pointer); isPtr {
+				t.store[key] = fval{kind: "term", term: "nil", ty: ty}
 			} else {
-				t.store[k] = fval{kind: "term", term: t.zeroTerm(l.ty), ty: l.ty}
+				t.store[key] = fval{kind: "term", term: t.zeroTerm(ty), ty: ty}
 			}
 		} else {
-			lp := strings.ReplaceAll(l.path, "[", ".get ")
-			t.store[k] = fval{kind: "term", term: term + lp, ty: l.ty}
+			t.store[key] = fval{kind: "term", term: tm, ty: ty}
 		}
-	}
+	})
 }
 
 func (t *ftr) value(v ssa.Value) fval {
@@ -355,26 +396,17 @@ func (t *ftr) value(v ssa.Value) fval {
 }
 
 func (t *ftr) initPlaceConst(p fplace, term string) {
-	if _, ok := leanStruct[namedName(p.ty)]; ok {
-		st := p.ty.Underlying().(*types.Struct)
-		for i := 0; i < st.NumFields(); i++ {
-			fl := st.Field(i)
-			if a, ok := fl.Type().Underlying().(*types.Array); ok && a.Len() == 0 {
-				continue
-			}
-			t.initPlaceConst(fplace{p.key + "." + fl.Name(), fl.Type()}, term+"."+fl.Name())
+	t.leafTerms(p, term, func(key, tm string, ty types.Type) {
+		if _, seen := t.store[key]; !seen {
+			t.store[key] = fval{kind: "term", term: tm, ty: ty}
 		}
-		return
-	}
-	if _, seen := t.store[p.key]; !seen {
-		t.store[p.key] = fval{kind: "term", term: term, ty: p.ty}
-	}
+	})
 }
 
 // argument of a call as a Lean term: pointers are dereferenced
 func (t *ftr) argTerm(v fval) string {
 	switch v.kind {
-	case "ptr":
+	case "ptr", "bslice":
 		return t.pack(v.place)
 	case "term":
 		return v.term
@@ -441,6 +473,12 @@ func (t *ftr) call(in *ssa.Call) fval {
 		}
 	}
 	switch name {
+	case "copyFieldElement":
+		// copy(buf[:], v.Bytes()); return buf[:]  -- the result is a slice over the caller's buffer
+		if len(args) == 2 && args[0].kind == "ptr" && args[1].kind == "ptr" {
+			t.unpack(args[0].place, t.let("Point.copyFieldElement "+t.argTerm(args[1])))
+			return fval{kind: "bslice", place: args[0].place, ty: in.Type()}
+		}
 	case "errors.New":
 		return fval{kind: "err", ty: in.Type()}
 	case "(*field.Element).SetBytes", "(*field.Element).SetWideBytes":
@@ -548,6 +586,10 @@ func (t *ftr) instr(in ssa.Instruction) (ret *fval) {
 				return
 			}
 		}
+		if b.kind == "bslice" {
+			t.vals[x] = fval{kind: "belem", place: b.place, n: ix.n, ty: x.Type()}
+			return
+		}
 		if b.kind != "ptr" {
 			t.fail("IndexAddr with base of kind %s", b.kind)
 			return
@@ -595,6 +637,8 @@ func (t *ftr) instr(in ssa.Instruction) (ret *fval) {
 		switch b.kind {
 		case "elem":
 			t.vals[x] = fval{kind: "term", term: b.term, ty: x.Type()}
+		case "belem":
+			t.vals[x] = fval{kind: "term", term: fmt.Sprintf("%s[%d]!", t.pack(b.place), b.n), ty: x.Type()}
 		case "ptrptr":
 			t.vals[x] = fval{kind: "ptr", place: b.place, ty: x.Type()}
 		case "ptr":
@@ -609,6 +653,10 @@ func (t *ftr) instr(in ssa.Instruction) (ret *fval) {
 	case *ssa.Store:
 		a := t.value(x.Addr)
 		v := t.value(x.Val)
+		if a.kind == "belem" && v.kind == "term" {
+			t.unpack(a.place, t.let(fmt.Sprintf("%s.set! %d %s", t.pack(a.place), a.n, v.term)))
+			return
+		}
 		if a.kind != "ptr" {
 			t.fail("store through a %s", a.kind)
 			return
@@ -703,6 +751,13 @@ func (t *ftr) instr(in ssa.Instruction) (ret *fval) {
 			t.vals[x] = fval{kind: "term", term: fmt.Sprintf("(%s == %s)", a.term, b.term), ty: x.Type()}
 		case token.NEQ:
 			t.vals[x] = fval{kind: "term", term: fmt.Sprintf("(%s != %s)", a.term, b.term), ty: x.Type()}
+		case token.SHL:
+			bits, _ := intBits(x.X.Type())
+			if bits == 0 || !b.conc {
+				t.fail("left shift by a variable count")
+				return
+			}
+			t.vals[x] = fval{kind: "term", term: fmt.Sprintf("(U.shl %d %s %s)", bits, a.term, b.term), ty: x.Type()}
 		case token.SHR:
 			if bits, signed := intBits(x.X.Type()); signed || bits == 0 {
 				t.fail("shift of a signed value")
@@ -721,8 +776,17 @@ func (t *ftr) instr(in ssa.Instruction) (ret *fval) {
 		a := t.value(x.X)
 		fb, fs := intBits(x.X.Type())
 		tb, _ := intBits(x.Type())
-		if a.kind != "term" || fb == 0 || tb == 0 || (!a.conc && (fs || tb < fb)) {
+		if a.kind != "term" || fb == 0 || tb == 0 {
 			t.fail("conversion %s -> %s", x.X.Type(), x.Type())
+			return
+		}
+		if !a.conc && tb < fb {
+			// integers are modelled by their two's complement representatives: narrowing keeps the low bits
+			t.vals[x] = fval{kind: "term", term: fmt.Sprintf("(U.trunc %d %s)", tb, a.term), ty: x.Type()}
+			return
+		}
+		if !a.conc && fs && tb > fb {
+			t.fail("sign extension %s -> %s", x.X.Type(), x.Type())
 			return
 		}
 		a.ty = x.Type()
@@ -758,18 +822,21 @@ func (t *ftr) retExpr(ret fval) (string, string) {
 		if hasRecv && (i == 0 || t.alias[i] == t.alias[0]) {
 			continue
 		}
+		if formulaOutParams[t.c.short(f.RelString(nil))][i] {
+			continue
+		}
 		if pt, ok := p.Type().Underlying().(*types.Pointer); ok {
 			pl := fplace{fmt.Sprintf("p%d", t.alias[i]), pt.Elem()}
-			for _, l := range t.leaves(pl.ty) {
-				lp := strings.ReplaceAll(l.path, "[", ".get ")
-				if v := t.store[pl.key+l.path]; v.kind != "term" || v.term != fmt.Sprintf("a%d", t.alias[i])+lp {
-					t.fail("argument %d is written", i)
+			ii := i
+			t.leafTerms(pl, fmt.Sprintf("a%d", t.alias[i]), func(key, tm string, ty types.Type) {
+				if v := t.store[key]; v.kind != "term" || v.term != tm {
+					t.fail("argument %d is written", ii)
 				}
-			}
+			})
 		}
 	}
 	switch ret.kind {
-	case "ptr":
+	case "ptr", "bslice":
 		return t.pack(ret.place), t.leanTypeOf(ret.place.ty)
 	case "term":
 		return ret.term, t.leanTypeOf(ret.ty)
@@ -781,6 +848,18 @@ func (t *ftr) retExpr(ret fval) (string, string) {
 		}
 		if len(ret.elems) == 2 && ret.elems[0].kind == "ptr" && ret.elems[1].kind == "term" && ret.elems[1].term != "nil" {
 			return "(" + t.pack(ret.elems[0].place) + ", " + ret.elems[1].term + ")", t.leanTypeOf(ret.elems[0].place.ty) + " × Nat"
+		}
+		allPtr := len(ret.elems) > 2
+		for _, e := range ret.elems {
+			allPtr = allPtr && e.kind == "ptr"
+		}
+		if allPtr {
+			var vs, ts []string
+			for _, e := range ret.elems {
+				vs = append(vs, t.pack(e.place))
+				ts = append(ts, t.leanTypeOf(e.place.ty))
+			}
+			return "(" + strings.Join(vs, ", ") + ")", strings.Join(ts, " × ")
 		}
 		// (pointer, error): `(returned value or none, final value of the receiver)`
 		if len(ret.elems) == 2 && len(f.Params) > 0 {
